@@ -30,7 +30,7 @@ CHECK_DEADLOCK FALSE
 VIEW View
 CONSTANTS
   TDen = 4
-  MaxShift = 1
+  MaxShift = %d
 INVARIANT OrderIsPermutation
 INVARIANT OrderAndMotionInvariant
 INVARIANT Additive
@@ -391,16 +391,17 @@ def _recipes(ctx):
         els = sorted(set([1, 103] + rng.sample(range(2, 103), 10)))
     else:
         els = list(range(1, 104))
-    recipes = [sweep_recipe(rng, z) for z in els for _ in range(ctx.pick(1, 3))]
+    recipes = [sweep_recipe(rng, z) for z in els for _ in range(ctx.pick(2, 5))]
     sizes = [1, 2, 3, 4, 5, 6, 8, 12, 20, 30, 40]
-    for i in range(ctx.pick(60, 900)):
+    for i in range(ctx.pick(100, 3000)):
         recipes.append(molecule_recipe(rng, sizes[i % len(sizes)] if i < 22 else rng.choice(sizes)))
     return els, recipes
 
 
 def run(ctx, explain=False):
-    ctx.model_check("mc/MC_Promolecule.tla", MC_CFG, name="MC_Promolecule(4 configurations, all orders x 72 motions)",
-                    timeout=900)
+    shifts = ctx.pick(1, 3)
+    ctx.model_check("mc/MC_Promolecule.tla", MC_CFG % shifts,
+                    name="MC_Promolecule(4 configurations, all orders x %d motions)" % (24 * (2 * shifts + 1)), timeout=1200)
     els, recipes = _recipes(ctx)
     traces = pool_map(drive, recipes, chunksize=1)
     ctx.validate("trace/Trace_Promolecule.tla", traces, consts="  TDen = %d\n" % TDEN,
